@@ -245,6 +245,12 @@ func (ex *Exec) checkReturn(fr *Frame, ct *Contract, r retInfo, ord int) {
 		name := fmt.Sprintf("%s#%s@ret%d", key, e.Label, ord)
 		if e.Behav != "" {
 			name = fmt.Sprintf("%s#%s.%s@ret%d", key, e.Behav, e.Label, ord)
+			// the behaviour's assumptions are about the entry state
+			var as []string
+			for _, a := range ct.BehavAssumes[e.Behav] {
+				as = append(as, ex.specBool(fr, fr.entry, a))
+			}
+			g = sImp(sAnd(as...), g)
 		}
 		o := ex.obligeNamed(st, name, "ensures", g, "postcondition: "+e.Text, r.pos)
 		for i, rv := range r.vals {
@@ -300,6 +306,10 @@ func (ex *Exec) checkFrame(fr *Frame, st *State, ct *Contract, ord int, pos toke
 			allowedIn[comp] = append(allowedIn[comp], set.S)
 			continue
 		}
+		if comp, idx, _, ok := ex.ghostTarget(pre, m.Expr); ok {
+			allowedAt[comp] = append(allowedAt[comp], idx)
+			continue
+		}
 		if mt, ok := ex.tryMapTarget(pre, m); ok {
 			mc := ex.mapCompsOf(mt.T)
 			for _, c := range []string{mc.has, mc.val, mc.ln} {
@@ -333,6 +343,11 @@ func (ex *Exec) checkFrame(fr *Frame, st *State, ct *Contract, ord int, pos toke
 	for k := range st.heap {
 		comps = append(comps, k)
 	}
+	for k := range st.ghost {
+		if strings.HasPrefix(k, "$g:") {
+			comps = append(comps, k)
+		}
+	}
 	sort.Strings(comps)
 	oldAlloc := ex.allocSet(fr.entry)
 	for _, k := range comps {
@@ -341,12 +356,21 @@ func (ex *Exec) checkFrame(fr *Frame, st *State, ct *Contract, ord int, pos toke
 		}
 		hc := ex.vc.heapT[k]
 		init := ex.initialComp(k)
-		cur := st.heap[k]
+		cur, isHeap := st.heap[k]
+		if !isHeap {
+			cur = st.ghost[k]
+		}
 		if cur == init {
 			continue
 		}
 		var goal string
-		if hc.isArr {
+		if hc.isArr && hc.idx != "" {
+			var exc []string
+			for _, r := range allowedAt[k] {
+				exc = append(exc, sEq("qr!", r))
+			}
+			goal = fmt.Sprintf("(forall ((qr! %s)) (=> (not %s) (= (select %s qr!) (select %s qr!))))", hc.idx, sOr(exc...), cur, init)
+		} else if hc.isArr {
 			var exc []string
 			for _, r := range allowedAt[k] {
 				exc = append(exc, sEq("qr!", r))
